@@ -144,7 +144,9 @@ def tlc(ctx, module, cfg_text, files=None, workers=1, timeout=1800, heap="4g", e
             if os.path.lexists(dstp):
                 os.remove(dstp)
             os.symlink(os.path.abspath(v), dstp)
-    jopts = ["-Xmx" + heap, "-Xss128m", "-XX:+UseParallelGC"]
+    jtmp = os.path.join(d, "jtmp")      # TLC leaves an empty tlc-<n> directory per run in java.io.tmpdir
+    os.makedirs(jtmp, exist_ok=True)
+    jopts = ["-Xmx" + heap, "-Xss128m", "-XX:+UseParallelGC", "-Djava.io.tmpdir=" + jtmp]
     if dfs:
         jopts.append("-Dtlc2.tool.queue.IStateQueue=StateDeque")
     cmd = ["timeout", str(timeout), "java"] + jopts + ["-cp", TLC_CP, "tlc2.TLC", "-workers", str(workers),
